@@ -613,6 +613,42 @@ func famPanic(o *Out, r R, tier string) {
 		}
 	}
 	valid2, _ := cors.NewMiddleware(cors.Config{Origins: []string{"*"}, RequestHeaders: []string{"*"}, Methods: []string{"*"}})
+	// the full product of field shapes (absent, nil, zero values, empty value, good value, two values) around an
+	// otherwise well-formed preflight / actual request, for three configurations and both debug modes
+	shapes := func(good string) [][]string {
+		return [][]string{nil, {}, {""}, {good}, {good, good}, {"\x00"}}
+	}
+	pnaMW, _ := cors.NewMiddleware(cors.Config{Origins: []string{"https://example.com"}, Methods: []string{"PUT"}, RequestHeaders: []string{"x-foo"}, ExtraConfig: cors.ExtraConfig{PrivateNetworkAccess: true}})
+	for _, mm := range []*cors.Middleware{valid, valid2, pnaMW} {
+		for _, dbg := range []bool{false, true} {
+			mm.SetDebug(dbg)
+			for oi, og := range shapes("https://example.com") {
+				for mi, am := range shapes("PUT") {
+					for hi, ah := range shapes("x-foo") {
+						for pi, ap := range shapes("true") {
+							for _, method := range []string{"OPTIONS", "GET"} {
+								hd := http.Header{}
+								for k, v := range map[string][]string{"Origin": og, "Access-Control-Request-Method": am, "Access-Control-Request-Headers": ah, "Access-Control-Request-Private-Network": ap} {
+									if v != nil || (oi+mi+hi+pi)%2 == 0 { // nil: alternately absent key / key with nil slice
+										if v == nil && (oi+mi+hi+pi)%4 == 0 {
+											continue
+										}
+										hd[k] = v
+									}
+								}
+								q := reqT{method: method, hdrs: hd}
+								guard("panic/request-shapes", "ServeHTTP on "+truncate(str(q.sx())), func() {
+									if out := serveOnce(mm, q, http.Header{}); out.panicked {
+										panic("handler panicked")
+									}
+								})
+							}
+						}
+					}
+				}
+			}
+		}
+	}
 	for i := 0; i < n; i++ {
 		c := cors.Config{Origins: genList(), Credentialed: r.chance(1, 2), Methods: genList(), RequestHeaders: genList(),
 			MaxAgeInSeconds: r.Intn(200000) - 100000, ResponseHeaders: genList()}
